@@ -169,14 +169,24 @@ def gen_case(seed, tier, index=0):
             metas.insert(pos, {"kind": "unrecognised", "path": "d0/trigger.zzz", "existing_lic": False, "sibling": False})
     names = [m["path"] for m in metas]
     rng.shuffle(names)
+    cwd, named_dirs, root_opt = ".", None, []
+    if family != "usage" and rng.chance(0.25):
+        # recursive form, started from a sub-directory with paths like '../d1' (and --root ..)
+        import posixpath
+        dirs = sorted({posixpath.dirname(n) for n in names})
+        named_dirs = rng.sample(dirs, rng.randint(1, len(dirs)))
+        cwd = rng.pick(dirs + ["."])
+        root_opt = ["--root", posixpath.relpath(".", cwd)] if cwd != "." else []
+        names = [posixpath.relpath(d, cwd) for d in named_dirs]
+        opts["recursive"] = True
     argv = A.argv_of(opts, names)
     if opts.get("template_raw"):
         argv = argv[:1] + ["--template", opts["template_raw"]] + argv[1:]
     obs = [{"kind": "reuse_info", "path": p} for m in metas for p in (m["path"], m["path"] + ".license")]
-    step = {"argv": ["--no-multiprocessing"] + argv, "clock": "2024-05-05T05:05:05", "observe": obs}
+    step = {"argv": root_opt + ["--no-multiprocessing"] + argv, "clock": "2024-05-05T05:05:05", "observe": obs, "cwd": cwd}
     hs = rng.sample(range(8), 2)
     return {"prop": PROP, "seed": seed, "world": {"files": files + extra}, "metas": metas, "opts": opts, "family": family,
-            "poison": case_poison, "usage": usage,
+            "poison": case_poison, "usage": usage, "named_dirs": named_dirs,
             "variants": [{"hashseed": hs[0], "steps": [dict(step)]}, {"hashseed": hs[1], "steps": [dict(step)]}]}
 
 
@@ -188,6 +198,9 @@ def predict(case):
     for m in case["metas"]:
         p = m["path"]
         if p not in content:
+            continue
+        if case.get("named_dirs") is not None and p.rsplit("/", 1)[0] not in case["named_dirs"]:
+            out[p] = {"target": p, "skipped": True, "fail": False, "sibling": (p + ".license") in content, "unnamed": True}
             continue
         sib = (p + ".license") in content
         style = opts.get("style") or m.get("style")
